@@ -238,10 +238,16 @@ def observe():
 def full_dump():
     T, I = DBI().tables, DBI().indices
     names = ('target', 'task', 'alg', 'state', 'value')
+    try:    # the persisted versions a (re)load compares the software with
+        _t, a, s, v = dawgie.db.shelve.versions()
+        vers = [sorted((k, sorted(set(x))) for k, x in d.items()) for d in (a, s, v)]
+    except Exception as e:  # pylint: disable=broad-except
+        vers = {'exc': type(e).__name__}
     return {
         'indices': [list(getattr(I, n)) for n in names],
         'tables': [sorted(dict(getattr(T, n)).items(), key=lambda t: (t[1], t[0]))
                    for n in names],
+        'versions': vers,
     }
 
 
